@@ -183,6 +183,7 @@ def run_case(case):
     if base.inconclusive:
         res['inconclusive'] = 'base run: ' + base.inconclusive
         return res
+    _results_per_run(res, base, 'base')
     if pstate.get('paused'):
         res['monitor_evaluations']['base-with-pause'] = \
             res['monitor_evaluations'].get('base-with-pause', 0) + 1
@@ -315,6 +316,7 @@ def _redelivery(c0, base, m, sent_at, lost, res):
             continue
         res['violations'].append(dict(v, duplicate=desc))
     res['monitor_evaluations']['redelivery'] += 1
+    _results_per_run(res, run, 'redelivery')
     nrun = 0
     redelivered_runs = 0
     seen_fault = False
@@ -358,6 +360,40 @@ def _redelivery(c0, base, m, sent_at, lost, res):
     # per executor invocation at most one result
     per_run = {}
     return run
+
+
+def _results_per_run(res, run, what):
+    """For every action the executor runs it reports at most one result:
+    per action execution, the genuine (not withheld, not harness-duplicated)
+    on_action_complete messages never outnumber its ACTION_RUN events."""
+    runs, sends = {}, {}
+    for ev in run.world.rec.events:
+        if ev['kind'] == 'ACTION_RUN':
+            runs[ev['action_ex_id']] = runs.get(ev['action_ex_id'], 0) + 1
+        elif ev['kind'] == 'RPC_SEND' and \
+                ev['method'] == 'on_action_complete' and not ev.get('hold'):
+            ids = ev.get('ids') or {}
+            if ids.get('wf_action'):
+                continue
+            u = ev.get('ulabel') or ''
+            if u.startswith('main') or 'FAULT' in u:
+                continue        # sent by the harness itself
+            sends[ids.get('action_ex_id')] = sends.get(
+                ids.get('action_ex_id'), 0) + 1
+    dups = {}
+    for ev in run.world.rec.events:
+        if ev['kind'] == 'FAULT' and ev.get('fault') == 'duplicate' and \
+                ev.get('method') == 'on_action_complete':
+            dups['n'] = dups.get('n', 0) + 1
+    for aid, n in sends.items():
+        res['monitor_evaluations']['results-per-run'] = \
+            res['monitor_evaluations'].get('results-per-run', 0) + 1
+        if n > max(runs.get(aid, 0), 1):
+            res['violations'].append({
+                'prop': 'C06', 'monitor': 'results-per-run',
+                'mech': 'more-results-than-runs', 'phase': what,
+                'msg': 'action execution %s ran %d times but %d results '
+                       'were reported for it' % (aid, runs.get(aid, 0), n)})
 
 
 def _collect(res, run):
